@@ -48,6 +48,13 @@ def run(tier):
         "bounded: <=3 save times on a lattice of sixteenths, <=6 iterations per call, 3-cell linear ODE"]
     wd = core.scratch("c07")
     rnd = random.Random(core.seed())
+    # the loop of _solve with SYMBOLIC times (start, save times, stop time, iteration limit, every step): Apalache, bounded in
+    # the number of loop iterations only
+    core.apalache_suite(rep, "Apa_Driver", ["InvSnapshots", "InvNoneMissed", "InvFirstStop", "InvCounts"],
+                        "model level, beyond the lattice: Apa_Driver.tla checks the snapshot / stop / counting clauses of the driver "
+                        "loop with Apalache/Z3 for EVERY integer starting time, up to three save times, stop time, iteration limit "
+                        "and time step, over the first %d loop iterations" % (5 if tier == "quick" else 11),
+                        timeout=1800, length=6 if tier == "quick" else 12)
     scen = gen_scenarios(rep, tier, wd)
     recs, meta = [], {}
     traces = []
